@@ -38,7 +38,7 @@ CHECKS = {
                 note="faults are injected by division by zero in generated programs, failing scripted drivers, Runtime::watchdog_timeout/simulation_fault"),
 }
 CHECKS["C09"] = dict(cat="model_checking", engine="RuntimeCycle", ref="§5 C09",
-    tech="TLA+ RuntimeCycle restart model checked with TLC; restart/power-cycle histories replayed on the real runtime and trace-validated by TLC",
+    tech="TLA+ RuntimeCycle restart model checked with TLC; restart/power-cycle histories replayed on the real runtime and trace-validated by TLC; ResourceRestart spec (2 deviations refuted) + restart requests, periodic saves and starts on an older store through the real resource thread loop, log validated by TLC",
     text="TLC checks WarmKeepsExactlyRetained, ColdEqualsFresh, PowerCycleSetEqualsWarmSet, RestartResets on MCRuntimeCycle; generated "
          "programs declaring RETAIN/NON_RETAIN/PERSISTENT/unqualified variables of 9 type shapes in global and program scope run "
          "histories of cycles, faults, %I changes, warm/cold restarts, save+rebuild+load power cycles and VAR_ACCESS writes on the real "
@@ -55,7 +55,7 @@ CHECKS["C10"] = dict(cat="fault_enumeration", engine="RetainFile", ref="§5 C10"
          "are validated by the same trace specification.",
     note="crash = SIGKILL at libc call boundaries; power loss decided on the model only; arbitrary-bytes totality is sampled")
 CHECKS["C17"] = dict(cat="model_checking", engine="DebugControl", ref="§5 C17",
-    tech="TLA+ DebugControl spec: all interleavings + liveness model-checked with TLC; two-thread runs of the real DebugControl/Runtime trace-validated by TLC from the runtime's own mutex-ordered trace lines",
+    tech="TLA+ DebugControl spec: all interleavings + liveness model-checked with TLC; two-thread runs of the real DebugControl/Runtime trace-validated by TLC from the runtime's own mutex-ordered trace lines; DapStop spec + real DebugAdapter over stdio; EndpointDebug spec (1 deviation refuted) + run-control request lines to a real control endpoint in front of a three-task runtime, log validated by TLC",
     text="TLC explores every interleaving of adapter commands (pause/continue/step-in/over/out per thread, set breakpoints) with the "
          "cycle thread's hook steps (enter / wait / wake) for small programs and checks OneStopPerPause, StopHasLocation, StepDepth, "
          "StepInNext, Transparent and, under weak fairness of the cycle thread, NoWedge. Hundreds of real two-thread runs (scripted hook "
@@ -74,7 +74,7 @@ CHECKS["C13"] = dict(cat="model_checking", engine="HirDb", ref="§5 C13",
          "status and call types of the scripted names are validated against the specification's answer function by TLC; panics and aborts are recorded as events.",
     note="trusts salsa's dependency tracking relative to its inputs, TLC and the harness projection; a disagreement of the abstract analysis with BOTH databases is counted, not reported; arbitrary contents are small (< 1 KiB)")
 CHECKS["C20"] = dict(cat="model_checking", engine="ResourceThreads", ref="§5 C20",
-    tech="TLA+ ResourceThreads spec: all interleavings + liveness with TLC (split-lock variant must fail); real resource threads under a seeded controller validated by TLC as an interleaving of atomic cycles",
+    tech="TLA+ ResourceThreads spec: all interleavings + liveness with TLC (split-lock variant must fail); real resource threads under a seeded controller validated by TLC as an interleaving of atomic cycles; EndpointDebug spec in production mode: pause / resume request lines to a real control endpoint in front of a real resource thread on the wall clock",
     text="TLC explores every interleaving of the resource loop steps (stop check, command drain, paused sleep, lock, sync-into, execute, "
          "sync-from, sleep on the manual clock with its sticky interrupt, fault exit) of 2 resources with a controller (pause, resume, stop, "
          "clock advance) and checks NoLostUpdate, PairedEqual, PausedMeansNoExec, StopSavesOnce, FaultIsolation and Stop ~> exited; the variant "
@@ -94,14 +94,14 @@ CHECKS["C01"] = dict(cat="model_checking", engine="StCore", ref="§5 C01",
          "child processes (panic, abort, stack overflow and hang are data) and is judged by the outcome contract.",
     note=_ST_NOTE)
 CHECKS["C02"] = dict(cat="model_checking", engine="StCore", ref="§5 C02",
-    tech="TLA+ StCore reference semantics (algebraic lemmas checked by TLC) + exact TLC trace validation of every variable after every cycle",
+    tech="TLA+ StCore reference semantics (algebraic lemmas checked by TLC) + exact TLC trace validation of every variable after every cycle; the shipped `trust-runtime conformance` runner (real binary) recorded against the direct run of the same cases",
     text="TLC checks the lemmas of the reference (division/modulo identity on the whole SINT square, closure and exactness of checked arithmetic "
          "on all boundary operands, bit identities); the full operator matrix and generated programs (typed literals without redundant "
          "type context, precedence through the real parser, short-circuit, CASE ranges, FOR/WHILE/EXIT, arrays) run on the real interpreter "
          "and after every cycle every variable and array element must equal the reference numerically and the fault must be the reference's.",
     note=_ST_NOTE)
 CHECKS["C03"] = dict(cat="model_checking", engine="StCore", ref="§5 C03",
-    tech="TLA+ StCore / RuntimeCycle tag invariant + TLC trace validation of the recorded tag of every storage slot",
+    tech="TLA+ StCore / RuntimeCycle tag invariant + TLC trace validation of the recorded tag of every storage slot; debugger writes through a real control endpoint and values published over the mesh read back with their tags",
     text="The recorded projection carries the runtime tag of every variable and array element; TLC requires tag = declared type after every "
          "cycle of the StCore programs, and for bound variables and counters of 9 type shapes after every cycle, I/O latch, warm/cold restart, "
          "power cycle and access-path write of the RuntimeCycle scripts.",
@@ -128,7 +128,7 @@ CHECKS["C12"] = dict(cat="exploration", engine="ParseSink", ref="§5 C12",
     note="inputs are sampled (not all UTF-8 strings); nesting bounded at the stated depth on an 8 MiB stack / 4 GiB address space; tree text "
          "compared by length and SHA-256; trusts TLC and the harness projection")
 CHECKS["C18"] = dict(cat="model_checking", engine="ControlAuth", ref="§5 C18",
-    tech="TLA+ ControlAuth spec (gate pipeline parse -> authenticate -> authorise -> debug gate -> dispatch, model-checked with TLC over every admissible role table) + complete enumeration of the real dispatcher and hostile request lines against a real ControlServer, every exchange trace-validated by TLC",
+    tech="TLA+ ControlAuth spec (gate pipeline parse -> authenticate -> authorise -> debug gate -> dispatch, model-checked with TLC over every admissible role table) + complete enumeration of the real dispatcher and hostile request lines against a real ControlServer, every exchange trace-validated by TLC; the same request lines through the web server's POST /api/control; Pairing spec (5 deviations refuted) for the token life cycle",
     text="TLC checks on every admissible (required role x mutating x debug-class) table, every endpoint configuration, credential and "
          "well-formedness class that a request is performed only with a sufficient role, unauthenticated requests are inert and carry no data "
          "when a token is configured, mutating kinds need more than viewer, debug-class kinds are refused while debugging is off, the role order "
@@ -163,7 +163,7 @@ CHECKS["C14"] = dict(cat="model_checking", engine="DocSync", ref="§5 C14",
          "identifier must carry that identifier's range in the editor's UTF-16 coordinates; server panics are recorded as events.",
     note="lone CR, columns past the end of a CRLF line, columns inside a surrogate pair, lines past the end and inverted ranges are not judged (inconclusive); the reference is the same binary")
 CHECKS["C19"] = dict(cat="model_checking", engine="WebIde", ref="§5 C19",
-    tech="TLA+ WebIde spec: path confinement of the designed admission check over every path shape and every interleaving of the three-phase optimistic write with roles / expiry / write-disabled mode, model-checked with TLC (racy and parent-only variants must fail); model-enumerated + random paths x operations x session kinds on a sentinel tree, and sequential + multi-threaded call histories of the real WebIdeState, all trace-validated by TLC",
+    tech="TLA+ WebIde spec: path confinement of the designed admission check over every path shape and every interleaving of the three-phase optimistic write with roles / expiry / write-disabled mode, model-checked with TLC (racy and parent-only variants must fail); model-enumerated + random paths x operations x session kinds on a sentinel tree, and sequential + multi-threaded call histories of the real WebIdeState, all trace-validated by TLC; a subset of the same scripts through the real web server's IDE routes",
     text="TLC checks that the designed admission check lets no path of <= 3 (thorough: 4) components over 27 component kinds land outside the project or on a "
          "hidden entry for any of 7 operations, and explores every interleaving of open / write at the code's grain (unlocked disk read, locked session + role "
          "check, refresh, version comparison, write) for 3 sessions with stale versions, expiry, viewer role, write-disabled requests and external edits, "
